@@ -32,35 +32,54 @@ Lib == [
                      Eq(V("y", 0), <<"sub", <<"pow", V("x", 0), N(2)>>, N(1)>>),
                      Eq(<<"mul", V("z", 0), V("y", 0)>>, N(6)) >>,
           fix |-> <<>>, swap |-> <<>>,
-          level |-> [x |-> R(2), y |-> R(3), z |-> R(2)], change |-> [x |-> RZero, y |-> RZero, z |-> RZero], parsol |-> <<>>],
+          level |-> [x |-> R(2), y |-> R(3), z |-> R(2)], change |-> [x |-> RZero, y |-> RZero, z |-> RZero], parsol |-> <<>>, mvars |-> <<>>, meqs |-> <<>>, xvars |-> <<>>],
   S2 |-> [vars |-> <<"a", "y">>, logv |-> {"a", "y"}, logrep |-> {}, pars |-> << <<"g", Q(3, 2)>> >>, linear |-> FALSE, flat |-> FALSE,
           eqs |-> << Eq(<<"div", V("a", 0), V("a", CNeg1)>>, P("g")),
                      Eq(V("y", 0), <<"mul", N(2), V("a", 0)>>) >>,
           fix |-> << <<"a", R(2)>> >>, swap |-> <<>>,
-          level |-> [a |-> R(2), y |-> R(4)], change |-> [a |-> Q(3, 2), y |-> Q(3, 2)], parsol |-> <<>>],
+          level |-> [a |-> R(2), y |-> R(4)], change |-> [a |-> Q(3, 2), y |-> Q(3, 2)], parsol |-> <<>>, mvars |-> <<>>, meqs |-> <<>>, xvars |-> <<>>],
   S3 |-> [vars |-> <<"k", "c">>, logv |-> {}, logrep |-> {}, pars |-> << <<"d", Q(1, 2)>> >>, linear |-> TRUE, flat |-> FALSE,
           eqs |-> << Eq(V("k", 0), <<"add", V("k", CNeg1), P("d")>>),
                      Eq(V("c", 0), <<"add", <<"mul", N(2), V("k", 0)>>, N(1)>>) >>,
           fix |-> << <<"k", R(3)>> >>, swap |-> <<>>,
-          level |-> [k |-> R(3), c |-> R(7)], change |-> [k |-> Q(1, 2), c |-> R(1)], parsol |-> <<>>],
+          level |-> [k |-> R(3), c |-> R(7)], change |-> [k |-> Q(1, 2), c |-> R(1)], parsol |-> <<>>, mvars |-> <<>>, meqs |-> <<>>, xvars |-> <<>>],
   S4 |-> [vars |-> <<"x", "y">>, logv |-> {}, logrep |-> {}, pars |-> <<>>, linear |-> TRUE, flat |-> TRUE,
           eqs |-> << Eq(V("x", 0), <<"add", <<"mul", Num(Q(1, 2)), V("x", CNeg1)>>, N(1)>>),
                      Eq(V("y", 0), <<"add", <<"mul", Num(Q(1, 2)), V("y", 1)>>, V("x", 0)>>) >>,
           fix |-> <<>>, swap |-> <<>>,
-          level |-> [x |-> R(2), y |-> R(4)], change |-> [x |-> RZero, y |-> RZero], parsol |-> <<>>],
+          level |-> [x |-> R(2), y |-> R(4)], change |-> [x |-> RZero, y |-> RZero], parsol |-> <<>>, mvars |-> <<>>, meqs |-> <<>>, xvars |-> <<>>],
   \* linear in logs, second lag and second lead; levels are kept as logarithms (the level itself is exp(2), exp(1))
   S5 |-> [vars |-> <<"a", "b">>, logv |-> {"a", "b"}, logrep |-> {"a", "b"}, pars |-> <<>>, linear |-> TRUE, flat |-> TRUE,
           eqs |-> << Eq(Lg("a", 0), <<"add", <<"mul", Num(Q(1, 2)), Lg("a", CNeg2)>>, N(1)>>),
                      Eq(Lg("b", 0), <<"sub", Lg("a", 2), N(1)>>) >>,
           fix |-> <<>>, swap |-> <<>>,
-          level |-> [a |-> R(2), b |-> R(1)], change |-> [a |-> RZero, b |-> RZero], parsol |-> <<>>],
+          level |-> [a |-> R(2), b |-> R(1)], change |-> [a |-> RZero, b |-> RZero], parsol |-> <<>>, mvars |-> <<>>, meqs |-> <<>>, xvars |-> <<>>],
   \* exogenize x at 4 and endogenize the parameter p
   S6 |-> [vars |-> <<"x", "y">>, logv |-> {}, logrep |-> {}, pars |-> << <<"p", Q(1, 4)>> >>, linear |-> FALSE, flat |-> TRUE,
           eqs |-> << Eq(V("x", 0), <<"add", <<"mul", P("p"), V("x", CNeg1)>>, N(1)>>),
                      Eq(V("y", 0), <<"mul", N(2), V("x", 0)>>) >>,
           fix |-> <<>>, swap |-> << <<"x", R(4), "p">> >>,
-          level |-> [x |-> R(4), y |-> R(8)], change |-> [x |-> RZero, y |-> RZero], parsol |-> << <<"p", Q(3, 4)>> >>] ]
-Ids == {"S1", "S2", "S3", "S4", "S5", "S6"}
+          level |-> [x |-> R(4), y |-> R(8)], change |-> [x |-> RZero, y |-> RZero], parsol |-> << <<"p", Q(3, 4)>> >>, mvars |-> <<>>, meqs |-> <<>>, xvars |-> <<>>],
+  \* flat mode with an exogenous variable that carries an assigned steady change (to be ignored: the flat path is constant) and enters with a lag
+  S7 |-> [vars |-> <<"x", "y">>, logv |-> {}, logrep |-> {}, pars |-> <<>>, linear |-> FALSE, flat |-> TRUE,
+          eqs |-> << Eq(V("x", 0), <<"add", <<"mul", Num(Q(1, 2)), V("x", CNeg1)>>, V("z", CNeg1)>>),
+                     Eq(V("y", 0), <<"add", <<"mul", V("x", 0), V("x", 0)>>, V("z", 0)>>) >>,
+          fix |-> <<>>, swap |-> <<>>,
+          level |-> [x |-> R(2), y |-> R(5), z |-> R(1)], change |-> [x |-> RZero, y |-> RZero, z |-> RZero], parsol |-> <<>>,
+          mvars |-> <<>>, meqs |-> <<>>, xvars |-> << <<"z", R(1), Q(1, 5)>> >>],
+  \* linear growth with a unit root and drift, measurement equations loading on the trending variable (levels and changes of the measurement variables)
+  S8 |-> [vars |-> <<"k", "c">>, logv |-> {}, logrep |-> {}, pars |-> << <<"d", Q(3, 5)>> >>, linear |-> TRUE, flat |-> FALSE,
+          eqs |-> << Eq(V("k", 0), <<"add", V("k", CNeg1), P("d")>>),
+                     Eq(V("c", 0), <<"add", <<"mul", Num(Q(1, 2)), V("c", CNeg1)>>, V("k", 0)>>) >>,
+          fix |-> <<>>, swap |-> <<>>,
+          \* k is pinned by its assigned level 0 (a unit root: the level is kept); c = 1/2 c{-1} + k: c_t = 2 k_t - 2 d  on the path
+          level |-> [k |-> RZero, c |-> Q(-6, 5), ob |-> R(1), oc |-> Q(-9, 5)], change |-> [k |-> Q(3, 5), c |-> Q(6, 5), ob |-> Q(6, 5), oc |-> Q(9, 5)], parsol |-> <<>>,
+          mvars |-> <<"ob", "oc">>,
+          meqs |-> << Eq(V("ob", 0), <<"add", <<"mul", N(2), V("k", 0)>>, N(1)>>), Eq(V("oc", 0), <<"add", V("c", 0), V("k", CNeg1)>>) >>,
+          \* the level of a unit-root variable is not determined by the equations: which solution of the family is returned is not
+          \* specified (the certificate is the member with k = 0); levels are then not compared, changes and the equations are
+          xvars |-> <<>>, freelevel |-> TRUE] ]
+Ids == {"S1", "S2", "S3", "S4", "S5", "S6", "S7", "S8"}
 
 ParVal(m, n) == LET S == {i \in 1..Len(m.parsol) : m.parsol[i][1] = n} IN
                 IF S # {} THEN m.parsol[CHOOSE i \in S : TRUE][2]
@@ -88,13 +107,19 @@ Decl(m) == << "!transition_variables", LET RECURSIVE J(_) J(i) == IF i > Len(m.v
            \o (IF m.logv = {} THEN <<>> ELSE << "!log-variables", LET q == SelectSeq(m.vars, LAMBDA n : n \in m.logv)
                                                                        RECURSIVE J(_) J(i) == IF i > Len(q) THEN "" ELSE (IF i = 1 THEN "" ELSE ", ") \o q[i] \o J(i + 1) IN J(1) >>)
            \o (IF m.pars = <<>> THEN <<>> ELSE << "!parameters", LET RECURSIVE J(_) J(i) == IF i > Len(m.pars) THEN "" ELSE (IF i = 1 THEN "" ELSE ", ") \o m.pars[i][1] \o J(i + 1) IN J(1) >>)
+           \o (IF m.xvars = <<>> THEN <<>> ELSE << "!exogenous-variables", LET RECURSIVE J(_) J(i) == IF i > Len(m.xvars) THEN "" ELSE (IF i = 1 THEN "" ELSE ", ") \o m.xvars[i][1] \o J(i + 1) IN J(1) >>)
            \o << "!transition_equations" >> \o [i \in 1..Len(m.eqs) |-> TreeText(m.eqs[i].lhs) \o " = " \o TreeText(m.eqs[i].rhs) \o ";"]
+           \o (IF m.mvars = <<>> THEN <<>> ELSE << "!measurement_variables", LET RECURSIVE J(_) J(i) == IF i > Len(m.mvars) THEN "" ELSE (IF i = 1 THEN "" ELSE ", ") \o m.mvars[i] \o J(i + 1) IN J(1),
+                                                   "!measurement_equations" >> \o [i \in 1..Len(m.meqs) |-> TreeText(m.meqs[i].lhs) \o " = " \o TreeText(m.meqs[i].rhs) \o ";"])
 
 Init == sc \in Ids /\ out = <<>> /\ done = FALSE
 Compute == /\ ~done /\ done' = TRUE /\ UNCHANGED sc
            /\ \E m \in {Lib[sc]} :
                 out' = [src |-> Decl(m), m |-> m,
-                        holds |-> \A i \in 1..Len(m.eqs), k \in 0..3 : SVal(m.eqs[i].lhs, m, k) = SVal(m.eqs[i].rhs, m, k),
+                        holds |-> /\ \A i \in 1..Len(m.eqs), k \in 0..3 : SVal(m.eqs[i].lhs, m, k) = SVal(m.eqs[i].rhs, m, k)
+                                  /\ \A i \in 1..Len(m.meqs), k \in 0..3 : SVal(m.meqs[i].lhs, m, k) = SVal(m.meqs[i].rhs, m, k)
+                                  \* exogenous variables keep their assigned level; in flat mode their path is constant whatever change was assigned
+                                  /\ \A i \in 1..Len(m.xvars) : m.level[m.xvars[i][1]] = m.xvars[i][2] /\ (m.flat => m.change[m.xvars[i][1]] = RZero),
                         plan_ok |-> /\ \A i \in 1..Len(m.fix) : m.level[m.fix[i][1]] = m.fix[i][2]
                                     /\ \A i \in 1..Len(m.swap) : m.level[m.swap[i][1]] = m.swap[i][2]
                                                                  /\ \E j \in 1..Len(m.parsol) : m.parsol[j][1] = m.swap[i][3]]
